@@ -87,29 +87,63 @@ def worker(names, seed, nrep, out):
     def emit(d):
         fo.write(json.dumps(d) + "\n")
         fo.flush()
+    from harness.props import c20_catalogue as cat
+
+    def one(build, name, variant, rep, fill):
+        """Build the arguments with padding value `fill` and call; returns (status, exc, mutated, result snapshot, padding intact)."""
+        rng = np.random.Generator(np.random.PCG64([seed, rep, abs(hash(name)) % (2 ** 31)]))
+        cat.FILL[0] = fill
+        del cat.PARENTS[:]
+        f, args, kwargs = build(rng, variant)
+        parents = list(cat.PARENTS)
+        before = snap((f, args, kwargs))
+        np.random.seed(0)
+        try:
+            res = f(*args, **kwargs)
+            st, exc = "ok", None
+        except Exception as e:
+            res, st, exc = None, "exception", "%s: %s" % (type(e).__name__, str(e)[:100])
+        after = snap((f, args, kwargs))
+        wrote = None
+        for k, (big, m, fv) in enumerate(parents):
+            pad = big[~m]
+            bad = ~(pad == fv) if not (isinstance(fv, float) and fv != fv) else ~np.isnan(pad)
+            if bad.any():
+                wrote = "parent buffer #%d: %d padding cell(s) outside the view were overwritten" % (k, int(bad.sum()))
+                break
+        try:
+            rs = snap(res) if st == "ok" else ("exc", exc)
+        except Exception:
+            rs = ("unsnappable",)
+        return st, exc, describe_diff(before, after), rs, wrote
+
     for name in names:
         build = CATALOGUE[name]
         for variant in VARIANTS:
             for rep in range(nrep):
-                rng = np.random.Generator(np.random.PCG64([seed, rep, abs(hash(name)) % (2 ** 31)]))
+                emit({"name": name, "variant": variant, "rep": rep, "status": "start"})
                 try:
-                    f, args, kwargs = build(rng, variant)
+                    st, exc, mutated, rs, wrote = one(build, name, variant, rep, 0)
                 except Skip:
                     emit({"name": name, "variant": variant, "rep": rep, "status": "skip"})
                     continue
                 except Exception as e:  # builder problem (boundary form not constructible)
                     emit({"name": name, "variant": variant, "rep": rep, "status": "builder-exception", "exc": "%s: %s" % (type(e).__name__, str(e)[:100])})
                     continue
-                before = snap((f, args, kwargs))
-                emit({"name": name, "variant": variant, "rep": rep, "status": "start"})
-                try:
-                    f(*args, **kwargs)
-                    st, exc = "ok", None
-                except Exception as e:
-                    st, exc = "exception", "%s: %s" % (type(e).__name__, str(e)[:100])
-                after = snap((f, args, kwargs))
-                emit({"name": name, "variant": variant, "rep": rep, "status": st, "exc": exc,
-                      "mutated": describe_diff(before, after)})
+                rec = {"name": name, "variant": variant, "rep": rep, "status": st, "exc": exc, "mutated": mutated, "wrote_outside_view": wrote}
+                if variant in cat.PADDED and st == "ok":
+                    # same call with another padding value; a third call with the first value rules out non-determinism
+                    try:
+                        st2, exc2, mut2, rs2, wrote2 = one(build, name, variant, rep, -12345)
+                        st3, exc3, mut3, rs3, wrote3 = one(build, name, variant, rep, 0)
+                        rec["padding_checked"] = True
+                        if rs3 == rs and rs2 != rs:
+                            rec["padding_dependent"] = "result %s with padding 0 and %s with padding -12345" % (str(rs)[:150], str(rs2)[:150])
+                        rec["wrote_outside_view"] = wrote or wrote2
+                        rec["mutated"] = mutated or mut2
+                    except Exception as e:
+                        rec["padding_checked"] = "failed: %s" % str(e)[:80]
+                emit(rec)
     fo.close()
 
 
@@ -148,7 +182,7 @@ def run_workers(ck, names, nrep, env_extra=None, tag="w"):
         records += recs
         if p.returncode != 0:
             last = [r for r in recs if r["status"] == "start"]
-            done = {(r["name"], r["variant"], r["rep"]) for r in recs if r["status"] in ("ok", "exception")}
+            done = {(r["name"], r["variant"], r["rep"]) for r in recs if r["status"] in ("ok", "exception", "skip", "builder-exception")}
             pending = [r for r in last if (r["name"], r["variant"], r["rep"]) not in done]
             crashes.append({"returncode": p.returncode, "during": pending[-1] if pending else None, "stderr": (se or "")[-3000:], "names": ch})
     return records, crashes
@@ -167,6 +201,17 @@ def purity(ck):
             ck.cov["traces_validated_against_impl"] += 1
             if r["status"] == "ok":
                 okcount[r["name"]] = okcount.get(r["name"], 0) + 1
+            if r.get("padding_checked") is True:
+                ck.cov.setdefault("padding_differential_calls", 0)
+                ck.cov["padding_differential_calls"] += 1
+            if r.get("padding_dependent"):
+                ck.fail("reads-outside-view/%s" % r["name"],
+                        "%s (%s layout): the result depends on the cells of the parent buffer that lie OUTSIDE the view it was given: %s" % (r["name"], r["variant"], r["padding_dependent"]),
+                        {"routine": r["name"], "variant": r["variant"], "rep": r["rep"], "seed": ck.seed, "detail": r["padding_dependent"]})
+            if r.get("wrote_outside_view"):
+                ck.fail("writes-outside-view/%s" % r["name"],
+                        "%s (%s layout) wrote outside the view it was given: %s" % (r["name"], r["variant"], r["wrote_outside_view"]),
+                        {"routine": r["name"], "variant": r["variant"], "rep": r["rep"], "seed": ck.seed, "detail": r["wrote_outside_view"]})
             if r.get("mutated"):
                 ck.fail("mutates-input/%s" % r["name"],
                         "%s (%s layout) changed its caller's data: %s" % (r["name"], r["variant"], r["mutated"]),
@@ -184,7 +229,7 @@ def purity(ck):
         ck.note("catalogue entries that never completed normally (only exceptions): %s" % never_ok)
     ck.section("purity", routines=len(names), calls=len([r for r in records if r["status"] in ("ok", "exception")]),
                completed_normally=sum(okcount.values()), never_completed=never_ok,
-               variants=["plain", "fortran", "view", "readonly", "singleton", "empty", "extreme"])
+               variants=["plain", "fortran", "view", "readonly", "singleton", "empty", "extreme", "tview", "midsingle"])
     ck.sample({"routine": "quantile", "variants": "plain/fortran/view/readonly/singleton/empty/extreme", "snapshot": "dtype, shape, strides, writeable flag, md5 of bytes of every argument before and after"})
 
 
@@ -198,7 +243,7 @@ def sanitizers(ck):
         ck.note("sanitizer overlay could not be built: %s" % str(e)[:300])
         return
     libasan = subprocess.run(["gcc", "-print-file-name=libasan.so"], capture_output=True, text=True).stdout.strip()
-    kernels = [n for n in sorted(CATALOGUE) if any(k in n for k in ("quantile", "median", "histogram", "intvol", "_joint", "_cspline", "blas", "ve_step", "knn", "Field", "registration.resample", "Forest", "ward", "kmeans"))]
+    kernels = [n for n in sorted(CATALOGUE) if any(k in n for k in ("quantile", "median", "histogram", "intvol", "_joint", "_cspline", "blas", "bindings", "ve_step", "knn", "Field", "registration.resample", "Forest", "ward", "kmeans"))]
     env = {"LD_PRELOAD": libasan, "ASAN_OPTIONS": "detect_leaks=0:abort_on_error=1:halt_on_error=1", "UBSAN_OPTIONS": "halt_on_error=1:abort_on_error=1",
            "VERIF_SANITIZE_OVERLAY": str(o["dir"])}
     records, crashes = run_workers(ck, kernels, ck.n(1, 3), env_extra=env, tag="san")
